@@ -58,7 +58,15 @@ ASSUMPTIONS = [
     "set dimension and an absent dimension unit are legal; a tag needs one unit per descriptor of each reference",
     "per-dimension entries concern descriptors paired with a data dimension (zip of descriptors and shape): a surplus "
     "descriptor is reported as DimensionMismatch, its own content is not inspected",
-    "file object: 'date is not set' is `not created_at`, i.e. epoch 0 (a writable session always has the attribute)",
+    "a date at the epoch (created_at == 0) is a date, for entities, features and the file alike; the file's date is "
+    "missing when its created_at attribute is absent (check_file catches the KeyError of the read; repaired 5bc8e32)",
+    "present-but-falsy-looking values are not missing values: type / name strings such as '0', ' ', 'None', a position "
+    "or extent of zeros, ticks (0.0,), labels (''), a dimension unit '' (= no unit), a denormal positive sampling "
+    "interval; a sampling interval of 0 / -0.0 counts as 'not set' (nixio: `not dim.sampling_interval`; DESIGN C14)",
+    "C14_guards_*: the environments give each read the Python value type the API returns (tuples of floats / strings / "
+    "ints, optional text and numbers, objects with a length, enum members); the locals posdim / extlen / extdim / "
+    "positions / file_created_at / refs_units are what their pinned assignments compute (C14_guards_locals); this "
+    "typing and the PyGuard semantics are checked per object against the Python interpreter in the correspondence",
     "features linking a DataFrame are outside the model",
     "util.is_uuid(id) true implies the id is a non-empty string (hypothesis of C14_complete_NoID_partial)",
     "a multi-tag without positions link has the inconsistency 'positions are not set' only: the two comparisons that "
@@ -70,11 +78,14 @@ ASSUMPTIONS = [
 ]
 TRUSTED_EXTRA = ["harness/extract/validator.py renders the ValidationError catalogue (identifiers, texts, arities), the "
                  "identifiers each check function refers to with the conditions they sit under, the statements of the "
-                 "verdict helpers, and the container order of check_file; harness/extract/units.py the SI tables and "
-                 "regex shapes",
+                 "verdict helpers, and the container order of check_file; harness/extract/validator_guards.py compiles "
+                 "the conditions of the report sites into PyGuard expressions (reads, not/and/or, is None, comparisons, "
+                 "len, units.is_atomic / is_si, generators over tuples and over one attribute of the referenced arrays, "
+                 "the adjacent-pairs idiom); harness/extract/units.py the SI tables and regex shapes",
                  "harness/props/c14.py: file builder (h5py edits), API walk -> description, message parser, and the "
                  "recipe-level expectation; harness/props/c14_units.py: the oracle's own SI prefix / unit tables and "
-                 "reader of unit strings"]
+                 "reader of unit strings; harness/props/c14_guards.py: rendering of the values the reads return as "
+                 "typed Python values for the driver, evaluation of the source's condition nodes by the interpreter"]
 READY = True
 
 
@@ -1789,17 +1800,27 @@ MANIFEST = {
                   "and one inconvertible descriptor of any one reference suffices (C14_unit_pair_atoms, "
                   "C14_unconvertible_atoms); the catalogue texts are pairwise distinct. Tie: catalogue, emitted "
                   "identifiers, guard structure of every check function and the statements of the verdict helpers are "
-                  "regenerated from the AST and compared by named theorems (C14_emits_*, C14_shape_*); exact "
-                  "differential runs on real HDF5 files (well-formed files, single / pairwise / subset injections, "
-                  "multi-reference cases, unit sweeps over the complete SI tables); an independent recipe-level oracle "
-                  "with its own SI unit reader states the property on the implementation.",
+                  "regenerated from the AST and compared by named theorems (C14_emits_*, C14_shape_*); the CONDITIONS "
+                  "of all report sites but one per tag function (the call of the verdict helper) are compiled from the "
+                  "AST into an expression language with Python's truthiness / and / or / is None / comparison / len / "
+                  "generator semantics (Pure/PyGuard.lean) and proved, for all values the reads can return, to compute "
+                  "exactly the model's message lists (C14_guards_entity/file/property/feature/range/sampled/array/tag/"
+                  "multi_tag; coverage and locals pinned by C14_guards_opaque/cover/locals); exact differential runs on "
+                  "real HDF5 files (well-formed files incl. boundary values of every presence-tested field, single / "
+                  "pairwise / subset injections, multi-reference cases, unit sweeps over the complete SI tables), and "
+                  "per object the compiled conditions under the Lean semantics against the same AST nodes run by the "
+                  "Python interpreter; an independent recipe-level oracle with its own SI unit reader states the "
+                  "property on the implementation.",
     "level_note": "Partial: the API reads are abstracted to a description produced by the same walk on both sides; "
                   "'no ID set' cannot be reported (the API refuses an entity without UUID id, validate() raises): full "
                   "statement refuted (C14_complete_NoID_counterexample), partial theorem under the UUID hypothesis, "
                   "open known finding (missing id). Repaired in /repo: missing date (d015b28), position/extent mismatch "
-                  "without references (961745b), missing positions link (b01e565). C14_unit_pair_atoms covers powers "
+                  "without references (961745b), missing positions link (b01e565), file dated at the epoch reported as "
+                  "undated / missing file date raised KeyError (5bc8e32). The site `not tag_units_match_refs_units(..)` "
+                  "is tied by the statements of the helper only (C14_shape_helpers). C14_unit_pair_atoms covers powers "
                   "^-3..^3 (the C09 atom table). Trusted: Lean kernel; axioms propext/Classical.choice/Quot.sound; the "
-                  "catalogue and units translators; the harness builder/walker/parser and the oracle's SI table "
+                  "catalogue, guards and units translators; the harness builder/walker/parser and the oracle's SI table "
                   "(harness/props/c14_units.py).",
-    "technique": "Lean 4 proof over a model of validator.py + differential correspondence on real HDF5 files",
+    "technique": "Lean 4 proof over a model of validator.py + conditions compiled from the AST and proved equal to the "
+                 "model + differential correspondence on real HDF5 files",
 }
